@@ -1,0 +1,39 @@
+//===- VerifHooks.h ---------------------------------------------*- C++ -*-===//
+//
+// Verification-only notification points of the build engine.  Everything in
+// this header is compiled out unless LLBUILD_VERIF is defined.
+//
+//===----------------------------------------------------------------------===//
+
+#ifndef LLBUILD_CORE_VERIFHOOKS_H
+#define LLBUILD_CORE_VERIFHOOKS_H
+
+#ifdef LLBUILD_VERIF
+
+#include <functional>
+
+namespace llbuild {
+namespace core {
+namespace verif {
+
+/// The points at which the engine thread notifies an installed hook.
+enum HookPoint {
+  /// Top of the engine work loop, before the cancellation test.
+  LoopTop = 0,
+  /// The engine found no work but has computing tasks and is about to wait
+  /// (the finished-task mutex is not yet taken).
+  BeforeWait = 1,
+  /// Top of each iteration of the cancellation drain loop (mutex not taken).
+  CancelDrain = 2,
+};
+
+/// Process-global hook, called on the engine thread if installed.
+extern std::function<void(int)> engineHook;
+
+}
+}
+}
+
+#endif // LLBUILD_VERIF
+
+#endif
